@@ -82,6 +82,11 @@ func (self *StreamDecoder) Decode(val interface{}) (err error) {
 				self.err = SyntaxError{e, self.s, types.ParsingError(-s), ""}
 				self.setErr(self.err)
 			}
+			if self.err == io.EOF {
+				// the reader is exhausted and the unread bytes do not frame a value:
+				// a truncated or malformed tail is an error, not a clean end of stream
+				self.err = io.ErrUnexpectedEOF
+			}
 			return self.err
 		} else {
 			s = y + s
